@@ -125,7 +125,9 @@ class Register:
                     elements = range(
                         alias_slice.start or 0, alias_slice.stop, alias_slice.step
                     )
-                    if len(elements) > 0 and (
+                    # (the truth value of a range, unlike its len(), is
+                    # defined however many elements it has)
+                    if elements and (
                         elements[0] >= alias_from.size or elements[-1] < 0
                     ):
                         raise JaqalError("Index out of range.")
